@@ -104,7 +104,7 @@ func (sms *sqlMetadataStore) PutObject(ctx context.Context, tx *sql.Tx, bucketNa
 		if err != nil {
 			return nil, err
 		}
-		if opts != nil && opts.IfNoneMatchStar && nullVersionEntity != nil {
+		if opts != nil && opts.IfNoneMatchStar && nullVersionEntity != nil && nullVersionEntity.IsLatest && !nullVersionEntity.IsDeleteMarker {
 			return nil, metadatastore.ErrPreconditionFailed
 		}
 		nullVersion := "null"
